@@ -40,7 +40,9 @@ EXTRA = ['true', 'false', 'null', 'NaN', 'Infinity', '-Infinity', '1e400', '-0',
          '"\\u00e9"', '"\\x"', '[1]', '{"a":1}', '"a" "b"', '""', '"', '1e-400', '-1e400', 'True',
          'None', '0x10', '1_0', '+1', '1e5', '1E+5', '-0.0', '"\\ud800"', 'nan', 'inf', '\u0661', '\uff11\uff12', '\u00b2', '1\u0662', '[]', '{}', '[[]]', '"a\nb"', '-', '--1', '1e', '1e+', '0.', '-.5', '00', '"\\""', '"\\"',
          '9007199254740993', '-9007199254740993', '18446744073709551617', '123456789012345678901234567890',
-         '9007199254740993.0', '0.1000000000000000055511151231257827', '1e22', '1e23', '4.35', '2.675e2']
+         '9007199254740993.0', '0.1000000000000000055511151231257827', '1e22', '1e23', '4.35', '2.675e2',
+         # integers that no double can hold (>= 2**1024), still far below the interpreter's 4300-digit limit (O4)
+         '1' + '0' * 308, '9' * 400, '-' + '9' * 1000, '1' + '0' * 309 + '.5', '1' + '0' * 400 + 'e-400']
 BATCH = 4000
 NONTRIVIAL_CHARS = '"\\\n\t\r\x00\u2028\x0b\x85'
 
@@ -226,7 +228,8 @@ def oracle(ctx, kind, p):
         nt = check_atom(ctx, a)
         if p['i'] % 5 == 0:
             # long numerals: integers beyond 2**53, many fraction digits, large exponents
-            big = rng.choice(['', '-']) + str(rng.randrange(1, 10)) + ''.join(rng.choice('0123456789') for _ in range(rng.randrange(15, 40)))
+            big = rng.choice(['', '-']) + str(rng.randrange(1, 10)) + ''.join(
+                rng.choice('0123456789') for _ in range(rng.randrange(15, 40) if rng.random() < 0.8 else rng.randrange(300, 1200)))
             if rng.random() < 0.3:
                 big += '.' + ''.join(rng.choice('0123456789') for _ in range(rng.randrange(1, 25)))
             if rng.random() < 0.2:
